@@ -695,3 +695,13 @@ for _fn in ("numba_build_skip_grams",):
          "seeded r3_C03: right for bigrams only", allow_error=True)
     silent("C03", "ngram-loop-over-start-index", [E(NGC, _fn, _NG_LOOP, _NG_LOOP_S), E(NGC, _fn, _NG_ANCHOR, "                        s_i + (1 - window_reversal_const[i]) * (ngram_size - 1),\n")],
            "the same re-parametrisation done right")
+
+# --- round 3: C05 sort key, C06 edge-list precision
+fire("C05", "vocabulary-sorted-by-str", "R5.1", E(PP, "construct_token_dictionary_and_frequency", "        unique_tokens = sorted(list(set(token_sequence)))", "        unique_tokens = sorted(set(token_sequence), key=str)"),
+     "seeded r3_C05: numeric tokens sort as strings")
+silent("C05", "vocabulary-sorted-without-list", E(PP, "construct_token_dictionary_and_frequency", "        unique_tokens = sorted(list(set(token_sequence)))", "        unique_tokens = sorted(set(token_sequence))"),
+       "the redundant list() dropped, natural order kept")
+fire("C06", "edge-matrix-float32", "R6.7", E(EL, "EdgeListVectorizer.fit", "            shape=(max_row, max_col),\n", "            shape=(max_row, max_col),\n            dtype=np.float32,\n"),
+     "seeded r3_C06: sums above 2**24 are rounded")
+silent("C06", "edge-matrix-float64-explicit", E(EL, "EdgeListVectorizer.fit", "            shape=(max_row, max_col),\n", "            shape=(max_row, max_col),\n            dtype=np.float64,\n"),
+       "the precision of the values spelled out")
